@@ -102,7 +102,7 @@ func init() {
 		ID:    "C05",
 		Level: "model_checking",
 		Rule: "every content list of length <=2 (thorough: <=3 over a reduced universe) over destinations x entry kinds x packager tags, prepared for each packager, " +
-			"plus every destination string up to length 6 (thorough 7) over {a,b,/,.}; tree-overlap: a tree at 7 spellings of its destination x an entry of 6 kinds at 10 paths at/inside the tree, both orders; siblings: every ordered triple over 7 destinations that sort between a path and its children x {file, dir, symlink, tree}; reprepare: a plan prepared for all packagers prepared again for one; run on files.PrepareForPackager and compared with the reference planner; part maporder: every list of <=2 entries over the reduced universe under every map iteration order (woven copy); " +
+			"plus every destination string up to length 6 (thorough 8) over {a,b,/,.}; tree-overlap: a tree at 7 spellings of its destination x an entry of 6 kinds at 10 paths at/inside the tree, both orders; siblings: every ordered triple over 7 destinations that sort between a path and its children x {file, dir, symlink, tree}; reprepare: a plan prepared for all packagers prepared again for one; run on files.PrepareForPackager and compared with the reference planner; part maporder: every list of <=2 entries over the reduced universe under every map iteration order (woven copy); " +
 			"a case is non-trivial when the list has >=1 relevant entry; distinct = distinct (outcome class, planned destination/kind/source set)",
 		Assumptions: []string{
 			"reference planner model/plan.go states the documented denotation",
@@ -396,7 +396,7 @@ func checkC05Changelog(env *engine.Env, c C05Case) engine.Outcome {
 
 func c05MaxLen(env *engine.Env) int {
 	if env.Thorough() {
-		return 7
+		return 8
 	}
 	return 6
 }
